@@ -360,7 +360,7 @@ def core_program(rng, ticks=True):
     g = Gen(rng, ticks=ticks, derived=False, forbid={"atom-key"})
     top = Scope()
     forms = []
-    templates = rng.sample(["adder", "count", "compose", "varsum", "internal", "apply", "shadowdef", "shadowdef", "shadowparam", "shadowparam", "collect", "plain", "plain", "plain"], rng.randint(3, 6))
+    templates = rng.sample(["adder", "count", "compose", "varsum", "internal", "apply", "shadowdef", "shadowdef", "shadowparam", "shadowparam", "collect", "redefine", "plain", "plain", "plain"], rng.randint(3, 6))
     globals_ = []
     for t in templates:
         if t == "adder":        # closures of order 3
@@ -425,6 +425,25 @@ def core_program(rng, ticks=True):
                                                defs=([("twice", app("*", lit(2), var(i_)))] if extra else []))))
             forms.append(app("map", lam(["th"], [app(var("th"))]), app("collect", lit(rng.randint(1, 5)), quote(NIL))))
             top.vars["collect"] = "opaque"
+        elif t == "redefine":
+            # a procedure's reference to its own name is a reference to the VARIABLE: after the variable is redefined or
+            # assigned, the old procedure (still reachable through an alias) calls the new one
+            w, alias = g.fresh(top, PROCNAMES), g.fresh(top, PROCNAMES)
+            if w != alias:
+                n_ = rng.choice(NAMES)
+                forms.append(define(w, lam([n_], [if_(app("=", var(n_), lit(0)), quote(vsym("old")), app(w, app("-", var(n_), lit(1))))])))
+                forms.append(define(alias, var(w)))
+                forms.append(app(alias, lit(rng.randint(0, 3))))
+                if rng.random() < 0.5:
+                    forms.append(define(w, lam([n_], [quote(vsym("new"))])))
+                else:
+                    forms.append(set_(w, lam([n_], [quote(vsym("assigned"))])))
+                forms.append(app("list", app(alias, lit(0)), app(alias, lit(rng.randint(1, 3))), app(w, lit(2))))
+                top.vars[w] = "opaque"; top.vars[alias] = "opaque"
+            once = g.fresh(top, PROCNAMES)
+            forms.append(define(once, lam([], [set_(once, lam([], [quote(vsym("again"))])), quote(vsym("first"))])))
+            forms.append(app("list", app(once), app(once), app(once)))
+            top.vars[once] = "opaque"
         elif t == "shadowparam":
             # parameters (fixed and rest) named like top-level variables: binding them on a call - with any number of
             # arguments, zero included - must not touch the top-level bindings, which are read again at the end
